@@ -68,7 +68,7 @@ def gen(seed, tier="quick"):
         style = r.choice(("new", "new", "new", "old", "none"))
         kind = "fn"
         if style == "new":
-            kind = r.choice(("fn", "fn", "method", "cm_outer", "cm_inner", "sm_outer", "dc", "gen", "coro"))
+            kind = r.choice(("fn", "fn", "method", "cm_outer", "cm_inner", "sm_outer", "dc", "gen", "coro", "wrapgen"))
         elif style == "none":
             kind = r.choice(("fn", "fn", "method", "gen", "coro"))
         params = [[f"x{j}", r.choice(arrs)] for j in range(r.randrange(1, 4))]
